@@ -283,9 +283,14 @@ class Hist:
         self.cmds = []
         self.n = 0
 
-    def new(self, sor=True, scal=False, maxread=0):
+    def new(self, sor=True, scal=False, maxread=0, noprobe=False):
+        """noprobe: the driver does not look at the reader after each call (looking buffers the next bytes - itself a use of
+        the reader between two calls); histories are run both ways"""
         self.n += 1
-        self.cmds.append({"op": "new", "d": 0, "sor": sor, "scal": scal, "h": self.n, "maxread": maxread})
+        c = {"op": "new", "d": 0, "sor": sor, "scal": scal, "h": self.n, "maxread": maxread}
+        if noprobe:
+            c["noprobe"] = True
+        self.cmds.append(c)
         return self.n
 
     def decode(self, pic=None, **kw):
@@ -539,6 +544,13 @@ def c03(tier, seed):
             start(40, 24, ver)
             H.decode(pg.inter_picture(rng, sor_hdr(rng, "P", 1, 40, 24, ver), truncate_after=cut, big=False))
             H.decode(pg.inter_picture(rng, sor_hdr(rng, "P", 2, 40, 24, ver), big=False))
+            # the same after a disposable picture: the macroblocks that are missing are predicted from the REFERENCE, which is
+            # then not the picture decoded last (also for a disposable picture cut short itself)
+            start(40, 24, ver)
+            H.decode(pg.inter_picture(rng, sor_hdr(rng, "D", 1, 40, 24, ver), pt="D", big=False, mix=[0, 5, 1, 2, 1, 0, 1]))
+            t = "P" if cut % 2 == 0 else "D"
+            H.decode(pg.inter_picture(rng, sor_hdr(rng, t, 2, 40, 24, ver), pt=t, truncate_after=cut, big=False))
+            H.decode(pg.inter_picture(rng, sor_hdr(rng, "P", 3, 40, 24, ver), big=False))
     # (d) chains of predicted pictures on larger grids: all differentials uniformly, dense residuals
     nrand, maxmb = (60, (4, 3)) if tier == "quick" else (5000, (6, 5))
     for i in range(nrand):
@@ -646,7 +658,7 @@ def c15(tier, seed):
                                 else pg.inter_picture(rng, hdr, pt=t, big=False, shape="sparse", stuffing=stuff,
                                                       mix=rng.choice([None, None, [8, 1, 0, 0, 0, 0, 0], [0, 3, 1, 1, 1, 1, 1]])))
                 for concat in (True, False):
-                    H.new(sor=(mode != "plus"), maxread=rng.choice([0, 0, 0, 1, 2, 4]))
+                    H.new(sor=(mode != "plus"), maxread=rng.choice([0, 0, 0, 1, 2, 4]), noprobe=(concat and rng.random() < 0.5))
                     H.cmds[-1]["concat"] = concat
                     for p in pics:
                         if not concat:
@@ -656,7 +668,7 @@ def c15(tier, seed):
     for i in range(30 if tier == "quick" else 5000):
         w, h = rng.choice([(16, 16), (17, 3), (33, 16), (48, 32), (5, 5)])
         ver = rng.randrange(2)
-        H.new()
+        H.new(noprobe=(i % 2 == 1))
         H.cmds[-1]["concat"] = True
         for k in range(rng.randrange(2, 9)):
             t = "I" if k == 0 else rng.choice(types)
@@ -684,8 +696,8 @@ def c15(tier, seed):
                 H.decode(pg.inter_picture(rng, sor_hdr(rng, "P", 2, 32, 16, ver), big=False, shape="sparse"))
     # long streams: several thousand bytes through ONE reader (whatever the reader keeps of what it has consumed must not
     # matter, however much that is); every call must succeed and report its own header
-    for mode in (["sor", "plus"] if tier == "quick" else ["sor", "plus", "sor", "sor", "plus", "sor"]):
-        H.new(sor=(mode == "sor"))
+    for mi, mode in enumerate(["sor", "plus", "sor", "plus"] if tier == "quick" else ["sor", "plus", "sor", "plus", "sor", "sor", "plus", "sor"]):
+        H.new(sor=(mode == "sor"), noprobe=(mi < 2))
         H.cmds[-1]["concat"] = True
         ver = rng.randrange(2)
         for k in range(170 if tier == "quick" else 600):
@@ -1363,7 +1375,7 @@ def c17(tier, seed):
     senc = run.encode(sflat)
 
     def stream_cmds(si, one_reader=False):
-        out = [{"op": "new", "d": 0, "sor": kinds_[si][0] == "sor", "tag": -1}]
+        out = [{"op": "new", "d": 0, "sor": kinds_[si][0] == "sor", "tag": -1, "noprobe": True}]
         for c in senc:
             if c["si"] == si:
                 if not one_reader or c["k"] == 0:
@@ -1457,6 +1469,18 @@ def c13(tier, seed):
             H.op("post", full=True)
             if rng.random() < 0.3:
                 H.op("cleanup")
+    # pictures with more samples than a single-precision float can count (above 2^24; only the 16-bit size code reaches
+    # them): one DC-only macroblock repeated (Picture!RepeatBits); judged by their lengths only
+    for (w, h) in ([(4097, 4097)] if tier == "quick" else [(4097, 4097), (8193, 2049), (1025, 16385), (5793, 5793)]):
+        hdr = pg.header("sor", "I", tr=9, q=rng.randrange(1, 32), w=w, h=h, ver=rng.randrange(2), sc=1)
+        p_ = dict(hdr)
+        mb = pg.coded_mb(rng, 3, False, cbpc=0, cbpy=0, big=False)
+        mb["b"] = [{"dc": rng.randrange(1, 128), "ev": []} for _ in range(6)]
+        p_["mbs"] = [mb]
+        p_["rep"] = pg.nmb(p_)
+        H.new()
+        H.decode(p_, opaque=True, expect="ok", planes=False, why="more-than-2^24-samples")
+        H.op("post", lens=True)
     # flat pictures at the extremes a decoder can produce (INTRADC 1 and 254 in every plane, all eight combinations), in sizes
     # whose rows end in 1, 2 or 3 left-over pixels and whose last block row is cut: the post-processing must cope with
     # colours far outside the video range wherever they stand
@@ -1666,7 +1690,7 @@ def c01(tier, seed):
         #     bit alignment, so the reader's buffer is drained and refilled at every phase - with a corrupted one now and then
         for i in range(40 * nrep):
             sor = rng.random() < 0.8
-            H.new(sor=sor, maxread=rng.choice([0, 0, 0, 1, 5]))
+            H.new(sor=sor, maxread=rng.choice([0, 0, 0, 1, 5]), noprobe=(i % 2 == 0))
             H.op("newreader")
             pool_ = [c for c in encbase if c["sor"] == sor]
             for k in range(rng.randrange(6, 30)):
@@ -1853,9 +1877,10 @@ def c05(tier, seed):
     for rep in range(2 if tier == "quick" else 24):
         ver = rep % 2
         big = pg.intra_picture(rng, sor_hdr(rng, "I", 3, 144, 112, ver), big=True, shape="dense")
-        for frac in ([0.55, 0.8, 0.93, 0.999] if tier == "quick" else [0.1, 0.3, 0.5, 0.55, 0.7, 0.8, 0.9, 0.93, 0.97, 0.999]):
+        # (cut position in per mille of the encoded length; integers only: the commands travel through TLC, which has no reals)
+        for pm in ([550, 800, 930, 999] if tier == "quick" else [100, 300, 500, 550, 700, 800, 900, 930, 970, 999]):
             H.new(maxread=rng.choice([0, 0, 3]))
-            H.cmds.append({"op": "split", "d": 0, "h": H.n, "pic": json.loads(json.dumps(big)), "frac": frac, "large": True})
+            H.cmds.append({"op": "split", "d": 0, "h": H.n, "pic": json.loads(json.dumps(big)), "permille": pm, "large": True})
             nsplit += 1
     enc = run.encode(H.cmds)
     # expand "split" pseudo commands: append first part, decode (opaque), append rest, decode (pixel, pre)
@@ -1865,7 +1890,7 @@ def c05(tier, seed):
             out.append(c)
             continue
         b = c["bytes"]
-        cut = c["cut"] if "cut" in c else max(1, min(len(b) - 1, int(len(b) * c["frac"])))
+        cut = c["cut"] if "cut" in c else max(1, min(len(b) - 1, len(b) * c["permille"] // 1000))
         out.append({"op": "append", "d": 0, "h": c["h"], "bytes": b[:cut]})
         out.append({"op": "decode", "d": 0, "h": c["h"], "bytes": [], "pre": True, "why": "split-first-part", "planes": not c.get("large", False)})
         out.append({"op": "append", "d": 0, "h": c["h"], "bytes": b[cut:]})
